@@ -48,27 +48,40 @@ func containsType(text, key string) bool {
 	}
 }
 
-// classKeyword is the phrase a diagnostic of the class must contain, for the
-// classes whose wording the properties fix; "" = any wording.
-func classKeyword(class string) string {
+// classKeywords lists phrasings under which a diagnostic still counts as one of the class the property names
+// (the properties fix the class of the error, not wire's wording); nil = any wording.
+func classKeywords(class string) []string {
 	switch class {
 	case "conflict":
-		return "multiple bindings"
+		return []string{"multiple bindings", "multiple providers", "multiple sources", "duplicate", "already provided", "already bound", "conflict", "ambiguous", "more than one", "provided twice", "bound twice"}
 	case "cycle":
-		return "cycle"
+		return []string{"cycle", "cyclic", "circular", "depends on itself"}
 	case "missing":
-		return "no provider found"
+		return []string{"no provider", "not provided", "missing", "cannot find", "can't find", "unsatisfied", "no source", "nothing provides", "unable to find"}
 	case "unused":
-		return "unused"
+		return []string{"unused", "not used", "never used", "not needed", "superfluous", "does not contribute", "unnecessary"}
 	}
-	return ""
+	return nil
+}
+
+func hasKeyword(d string, kws []string) bool {
+	if kws == nil {
+		return true
+	}
+	ld := strings.ToLower(d)
+	for _, k := range kws {
+		if strings.Contains(ld, k) {
+			return true
+		}
+	}
+	return false
 }
 
 // matchReason reports whether some diagnostic matches the reason.
 func matchReason(diags []string, r ir.Reason) bool {
-	kw := classKeyword(r.Class)
+	kws := classKeywords(r.Class)
 	for _, d := range diags {
-		if kw != "" && !strings.Contains(d, kw) {
+		if !hasKeyword(d, kws) {
 			continue
 		}
 		switch r.Class {
